@@ -201,7 +201,7 @@ def canonGroups (resp : List Hash) : List (Prefix × List Hash) :=
 def validGroups (resp : List Hash) (gs : List (Prefix × List Hash)) : Bool :=
   gs.all (fun g => g.2 == groupOf resp g.1 && !g.2.isEmpty) &&
   resp.all (fun h => gs.any (fun g => g.1 == prefix2 h)) &&
-  (gs.map (·.1)).eraseDups.length == gs.length
+  decide (gs.map (·.1)).Nodup
 
 /-- second loop of `storeInCache`: a negative entry for every requested prefix
 that is absent from the cache (`Get` first: it also refreshes the usage order)
